@@ -6,8 +6,10 @@
 // test mosdns instance, and executed with harness plugins that record an ordered
 // trace. The same text is run by an independent reference interpreter (ref.go);
 // trace, final response marker and returned error must be equal. Wrapping
-// plugins re-run their continuation zero, one or two times, and concurrently on
-// two qCtx.Copy()s (per-copy trace buffers; the process runs under -race).
+// plugins re-run their continuation zero, one or two times, concurrently on
+// two qCtx.Copy()s, and keep it to run it later (after the wrapper returned;
+// after the whole top-level execution returned and other programs ran), each
+// run with its own trace buffer; the process runs under -race.
 package main
 
 import (
@@ -48,20 +50,21 @@ type replayCase struct {
 
 // local (per worker) statistics, merged at the end
 type stats struct {
-	ft          *feats
-	evals       int64
-	programs    int64
-	discarded   int64
-	nontrivial  int64
-	traceTotal  int64
-	maxTrace    int
-	loaders     map[string]int64
-	origins     map[string]int64
-	nonTrivBy   map[string]int64
-	withErr     int64
-	withResp    int64
-	emptyTraces int64
-	presetRuns  int64
+	ft                                 *feats
+	evals                              int64
+	programs                           int64
+	discarded                          int64
+	nontrivial                         int64
+	traceTotal                         int64
+	maxTrace                           int
+	loaders                            map[string]int64
+	origins                            map[string]int64
+	nonTrivBy                          map[string]int64
+	withErr                            int64
+	withResp                           int64
+	emptyTraces                        int64
+	presetRuns                         int64
+	lateRuns, lateRunsNewG, lateReRuns int64
 }
 
 func newStats() *stats {
@@ -110,7 +113,111 @@ func compare(exp, obs *result, runaway bool, panicked any) (string, string) {
 	if exp.Resp != obs.Resp {
 		return "response-mismatch", fmt.Sprintf("final response marker (id/rcode/questions): rules say %s, mosdns left %s", exp.Resp, obs.Resp)
 	}
+	// continuations kept by late-running wrappers: those already run (by a
+	// goroutine joined before the verdict) must have executed the same remaining rules
+	if len(exp.Deferred) != len(obs.Deferred) {
+		return keptKey, fmt.Sprintf("%d continuations were kept by wrappers, the rules say %d", len(obs.Deferred), len(exp.Deferred))
+	}
+	for i := range exp.Deferred {
+		e, o := &exp.Deferred[i], &obs.Deferred[i]
+		if e.Label != o.Label || e.Kind != o.Kind {
+			return keptKey, fmt.Sprintf("kept continuation #%d belongs to wrapper %s/%s, the rules say %s/%s", i, o.Label, o.Kind, e.Label, e.Kind)
+		}
+		if o.Res != nil {
+			if k, w := compare(e.Res, o.Res, false, nil); k != "" {
+				return keptKey, fmt.Sprintf("continuation kept by wrapper %s (%s) and run after the wrapper's Exec had returned did not execute the same remaining rules as an immediate run: %s", e.Label, e.Kind, w)
+			}
+		}
+	}
 	return "", ""
+}
+
+const keptKey = "kept-continuation-mismatch"
+
+// ---- continuations run after their top-level execution returned -----------------------
+
+type laterItem struct {
+	p         *Program
+	entry     int
+	preset    bool
+	pend      *pending
+	exp       *result
+	remaining int
+	runIdx    int
+}
+
+type deferQueue struct {
+	old, cur []laterItem
+	programs int
+}
+
+// collectLater pairs the kept continuations that still have to run (kinds later*)
+// with their reference results; lateg kinds have run already, their nested ones are visited.
+func collectLater(exp []dres, pend []*pending, p *Program, entry int, preset bool, out *[]laterItem) {
+	for i := range exp {
+		if i >= len(pend) {
+			return
+		}
+		pd := pend[i]
+		if pd.grun != nil {
+			collectLater(exp[i].Res.Deferred, pd.grun.pend, p, entry, preset, out)
+			continue
+		}
+		*out = append(*out, laterItem{p: p, entry: entry, preset: preset, pend: pd, exp: exp[i].Res, remaining: lateRuns(pd.kind)})
+	}
+}
+
+// runLater performs one late run of it: an unrelated program that jumps runs
+// first on this goroutine; then the kept continuation runs, on this goroutine
+// or on a new one. nested receives continuations kept during the late run.
+func runLater(w *world, it *laterItem, st *stats, nested *[]laterItem) *failure {
+	w.runNoise()
+	newG := it.runIdx%2 == 1 || it.pend.kind == "laterc"
+	o := runKeptLater(it.pend, 4*refLimit+64, newG)
+	it.runIdx++
+	it.remaining--
+	if st != nil {
+		st.lateRuns++
+		if newG {
+			st.lateRunsNewG++
+		}
+		if it.runIdx > 1 {
+			st.lateReRuns++
+		}
+	}
+	if k, what := compare(it.exp, &o.res, o.runaway, o.panicked); k != "" {
+		ob := o.res
+		return &failure{key: keptKey, entry: it.entry, preset: it.preset, exp: it.exp, obs: &ob,
+			what: fmt.Sprintf("continuation kept by wrapper %s (%s), late run #%d after the top-level execution had returned and other executions had run, did not execute the same remaining rules as an immediate run: %s", it.pend.label, it.pend.kind, it.runIdx, what)}
+	}
+	collectLater(it.exp.Deferred, o.pend, it.p, it.entry, it.preset, nested)
+	return nil
+}
+
+// tick is called after every program; items wait for at least two further
+// programs (all their entries) executed on this goroutine before they run.
+func (dq *deferQueue) tick(w *world, st *stats, drain bool) {
+	dq.programs++
+	if !drain && dq.programs%2 != 0 {
+		return
+	}
+	for {
+		items := dq.old
+		dq.old, dq.cur = dq.cur, nil
+		for i := range items {
+			it := items[i]
+			if f := runLater(w, &it, st, &dq.cur); f != nil {
+				report(w, it.p, f)
+				continue
+			}
+			if it.remaining > 0 {
+				dq.cur = append(dq.cur, it)
+			}
+		}
+		if !drain || (len(dq.old) == 0 && len(dq.cur) == 0) {
+			return
+		}
+	}
 }
 
 // check builds p and runs entry (or all entries if entry < 0). It returns the
@@ -122,7 +229,7 @@ type failure struct {
 	exp, obs  *result
 }
 
-func checkProgram(w *world, p *Program, onlyEntry, onlyPreset int, st *stats) *failure {
+func checkProgram(w *world, p *Program, onlyEntry, onlyPreset int, st *stats, dq *deferQueue) *failure {
 	rp, err := refCompile(p)
 	if err != nil {
 		rep.Inconclusive("harness bug: reference cannot parse generated program %s: %v", p.Origin, err)
@@ -164,7 +271,7 @@ func checkProgram(w *world, p *Program, onlyEntry, onlyPreset int, st *stats) *f
 				wrapN += n
 			}
 			stateMatters = ft.hEval > 0 || wrapN > 0
-			obs, runaway, panicked := realExec(seqs[e], preset, 4*steps+64)
+			obs, pend, runaway, panicked := realExec(seqs[e], preset, 4*steps+64)
 			if st != nil {
 				st.evals++
 				if preset {
@@ -203,6 +310,24 @@ func checkProgram(w *world, p *Program, onlyEntry, onlyPreset int, st *stats) *f
 				ex, ob := exp, obs
 				return &failure{key: key, what: what, entry: e, preset: preset, exp: &ex, obs: &ob}
 			}
+			if len(pend) > 0 {
+				if dq != nil {
+					collectLater(exp.Deferred, pend, p, e, preset, &dq.cur)
+				} else {
+					// self-contained (replay / shrinking): all late runs now
+					var items []laterItem
+					collectLater(exp.Deferred, pend, p, e, preset, &items)
+					for len(items) > 0 {
+						it := items[0]
+						items = items[1:]
+						for it.remaining > 0 {
+							if f := runLater(w, &it, st, &items); f != nil {
+								return f
+							}
+						}
+					}
+				}
+			}
 		}
 	}
 	return nil
@@ -237,6 +362,10 @@ func mergeFeats(d, s *feats) {
 	}
 	d.skipped += s.skipped
 	d.matched += s.matched
+	for k, v := range s.deferredReg {
+		d.deferredReg[k] += v
+	}
+	d.deferredPending += s.deferredPending
 }
 
 // samples: one per interesting class
@@ -304,7 +433,7 @@ func shrink(w *world, p *Program, entry int, preset bool, key string) (*Program,
 		if e < 0 {
 			return nil
 		}
-		f := checkProgram(w, q, e, boolInt(preset), nil)
+		f := checkProgram(w, q, e, boolInt(preset), nil, nil)
 		if f != nil && f.key == key {
 			return f
 		}
@@ -427,7 +556,7 @@ func main() {
 	caselog = evid.OpenCaseLog()
 	registerQuickSetups()
 	debug.SetMaxStack(256 << 20) // a walker that recurses forever must die quickly, not eat 16 x 1 GB
-	rep.SetRule("programs = corner-case grids (G1 control grid {terminator in callee} x {jump,goto} x {terminator in caller} x {no wrapper, 9 wrapper kinds} x {jump,goto}; G2 wrapper inside a jumped sequence; G3 every matcher tuple of length 0..3 over {T,F,E,has-response,_true,_false} x {plain,!}; G4 nesting depth 1..6 with a wrapper at every level; G5 top-level return/accept/reject; G6 stacked wrappers) + seeded random programs (1-6 sequences x 0-7 rules x 0-3 matchers, DAG references in build order); each rendered to rule text with random white space / '!' spelling / '$tag' vs '$tag args' (quick-configure) vs 'type args' (quick-setup) and loaded via NewSequence, the plugin-type registry or yaml->WeakDecode; every sequence of a program is executed as a top-level entry = one evaluation. Non-trivial = the reference trace has >= 3 entries and the execution actually performed at least one jump/goto/return/wrapper/negated-matcher evaluation; distinct = canonical text (labels, ids, white space, text form removed) of the sequences reachable from the entry.")
+	rep.SetRule("programs = corner-case grids (G1 control grid {terminator in callee} x {jump,goto} x {terminator in caller} x {no wrapper, 14 wrapper kinds} x {jump,goto}; G2 wrapper inside a jumped sequence; G3 every matcher tuple of length 0..3 over {T,F,E,has-response,_true,_false} x {plain,!}; G4 nesting depth 1..6 with a wrapper at every level; G5 top-level return/accept/reject; G6 stacked wrappers) + seeded random programs (1-6 sequences x 0-7 rules x 0-3 matchers, DAG references in build order); each rendered to rule text with random white space / '!' spelling / '$tag' vs '$tag args' (quick-configure) vs 'type args' (quick-setup) and loaded via NewSequence, the plugin-type registry or yaml->WeakDecode; every sequence of a program is executed as a top-level entry = one evaluation (again with a response already present if the execution looks at the response). Wrapper kinds: continue once / stop / zero times + own response / post-process / post-process + set / swallow error / twice / twice with drop / concurrently on two copies / KEEP the continuation and run it later on a copy of the query: by a goroutine released when the wrapper Exec returns (lateg, lategc) or after the top-level Exec returned and >= 2 other programs plus an unrelated jumping program ran on the same goroutine, alternately on the same and on a new goroutine, once (later, laterc) or three times (later3); each late run is compared on its own with the reference trace of the same remaining rules. Non-trivial = the reference trace has >= 3 entries and the execution actually performed at least one jump/goto/return/wrapper/negated-matcher evaluation; distinct = canonical text (labels, ids, white space, text form removed) of the sequences reachable from the entry.")
 	rep.Assume("the reference interpreter (cmd/c06/ref.go: own text parser, explicit continuation stack) encodes the property statement; 'goto never comes back' is read as: all pending jump returns are dropped (goto = jump + accept), as DESIGN.md C06 states")
 	rep.Assume("harness plugin behaviour (what each test matcher/action/wrapper does with the response and with the errors it sees) is specified twice, in plugins.go and in ref.go; a discrepancy there would show as a false alarm on the unchanged tree, not as a missed violation")
 	rep.Assume("programs whose reference trace exceeds 1500 entries (exponential blow-up of nested twice/conc wrappers) are discarded before they reach mosdns and are not counted")
@@ -442,7 +571,7 @@ func main() {
 		w := newWorld()
 		for i := 0; i < 20; i++ { // repeated: the conc wrapper is schedule dependent
 			st := newStats()
-			if f := checkProgram(w, rc.Program, rc.Entry, boolInt(rc.Preset), st); f != nil {
+			if f := checkProgram(w, rc.Program, rc.Entry, boolInt(rc.Preset), st, nil); f != nil {
 				report(w, rc.Program, f)
 				break
 			}
@@ -476,6 +605,8 @@ func main() {
 		go func(wi int) {
 			defer wg.Done()
 			w := newWorld()
+			dq := &deferQueue{}
+			defer func() { dq.tick(w, st, true) }()
 			published := int64(0)
 			for !stop.Load() {
 				evalsPublished.Add(st.evals - published)
@@ -500,11 +631,12 @@ func main() {
 					p := render(lp, rng)
 					current[wi].Store(p)
 					beat[wi].Add(1)
-					if f := checkProgram(w, p, -1, -1, st); f != nil {
+					if f := checkProgram(w, p, -1, -1, st, dq); f != nil {
 						report(w, p, f)
-						if rep.Violations() >= 12 {
-							stop.Store(true)
-						}
+					}
+					dq.tick(w, st, false)
+					if rep.Violations() >= 12 {
+						stop.Store(true)
 					}
 				}
 			}
@@ -555,6 +687,9 @@ func main() {
 		tot.withResp += s.withResp
 		tot.emptyTraces += s.emptyTraces
 		tot.presetRuns += s.presetRuns
+		tot.lateRuns += s.lateRuns
+		tot.lateRunsNewG += s.lateRunsNewG
+		tot.lateReRuns += s.lateReRuns
 		if s.maxTrace > tot.maxTrace {
 			tot.maxTrace = s.maxTrace
 		}
@@ -605,6 +740,15 @@ func main() {
 	for k, v := range ft.wrapKinds {
 		c("ref:wrapper_"+k, v)
 	}
+	defReg := 0
+	for k, v := range ft.deferredReg {
+		c("ref:continuations_kept_by_"+k, v)
+		defReg += v
+	}
+	c("ref:continuations_kept_with_pending_jump_return", ft.deferredPending)
+	rep.Count("late_runs_after_toplevel_returned_compared", tot.lateRuns)
+	rep.Count("late_runs_on_a_new_goroutine", tot.lateRunsNewG)
+	rep.Count("late_runs_repeated(2nd/3rd run of the same kept continuation)", tot.lateReRuns)
 	for k, v := range ft.wrapPending {
 		c("ref:wrapper_"+k+"_with_pending_jump_return", v)
 	}
